@@ -93,6 +93,17 @@ def interval_predicate(fn: ast.AST, methods: Optional[Dict[str, ast.AST]] = None
                 if v[0] == "meas":
                     return ("const", "Measurement" in kinds)
                 return ("unknown", ast.unparse(e))
+            if isinstance(f, ast.Name) and "<fn>" + f.id in methods and depth < 3:
+                m = methods["<fn>" + f.id]
+                margs = [a.arg for a in m.args.args]  # type: ignore[attr-defined]
+                actual = [ev(a, env, depth) for a in e.args]
+                if len(actual) == len(margs):
+                    inner = dict(zip(margs, actual))
+                    try:
+                        run_block(m.body, inner, depth + 1)  # type: ignore[attr-defined]
+                    except _Ret as r:
+                        return r.value
+                return ("unknown", ast.unparse(e))
             if isinstance(f, ast.Attribute) and f.attr in methods and depth < 3:
                 recv = ev(f.value, env, depth)
                 m = methods[f.attr]
@@ -393,7 +404,10 @@ def run(rep: Report) -> None:
     mcls = prog.cls("Measurement")
     deferred: Optional[AnalysisError] = None
     try:
-        pred, atoms, text = interval_predicate(meq.node, {n: prog.functions[q].node for n, q in mcls.methods.items()})
+        helpers_ = {n: prog.functions[q].node for n, q in mcls.methods.items()}
+        # module-level helpers of the core module (`_comparand_as_measurement(other)`) are inlined the same way, called by name
+        helpers_.update({"<fn>" + n: prog.functions[q].node for n, q in prog.modules[""].functions.items() if q in prog.functions})
+        pred, atoms, text = interval_predicate(meq.node, helpers_)
     except AnalysisError as e:
         # the predicate is not in a form the order-domain evaluation can read: the other rules still run, and the
         # run ends as an analysis error only if none of them reports a violation
@@ -475,7 +489,8 @@ def run(rep: Report) -> None:
         rep.check("R12.4", f"Quantity.{d}:gate", not bad_gate, f"Quantity.{d} does not return NotImplemented for different dimensions before "
                   "comparing (== must be False and ordering a TypeError, decided by Python from NotImplemented)", fi.where())
         hs = [h for h in ast.walk(fi.node) if isinstance(h, ast.ExceptHandler)]
-        ok2 = bool(hs) and all(h.body and isinstance(h.body[-1], ast.Return) and ast.unparse(h.body[-1].value or ast.Constant(0)) == "NotImplemented" for h in hs)
+        from ..effects import handler_yields
+        ok2 = bool(hs) and all(handler_yields(fi.node, h) for h in hs)
         rep.check("R12.4", f"Quantity.{d}:unconvertible", ok2, f"Quantity.{d} does not return NotImplemented when no conversion exists", fi.where())
 
     # R12.6 operator consistency
